@@ -350,7 +350,7 @@ def main(ctx, replay):
                 continue
             if st != exp:
                 mismatches += 1
-                rep("ingress-status:%s" % ("body" if len(body) > c["mb"] or st == 413 and exp == 202 else "headers"),
+                rep("ingress-status:%s" % ("body" if len(body) > c["mb"] else "auth" if not (200 <= fst < 300) else "headers"),
                     "ingress answered %d, expected %d (body %d bytes, max_body %d)" % (st, exp, len(body), c["mb"]), case,
                     {"observed": {"status": st}, "expected": {"status": exp}})
                 continue
